@@ -175,7 +175,8 @@ def generate(rng, tier, idx):
             ops.append({'op': 'sample_badtau', 'm': m, 'n': 2})
         elif r < 0.96:
             ops.append({'op': 'pair_fresh', 'm': m, 'seed': rng.randrange(2**31),
-                        'n': rng.choice([1, 3]), 'k': rng.randint(1, 50)})
+                        'n': rng.choice([1, 3]), 'k': rng.randint(1, 50),
+                        'seed_kind': rng.choice(['int', 'int', 'same_rs_object', 'equal_rs'])})
         else:
             ops.append({'op': 'dataset', 'name': rng.choice(DATASETS),
                         'size': rng.choice([1, 2, 7, 50]), 'seed': rng.randrange(10**6)})
@@ -759,14 +760,22 @@ def _pair_fresh(w, op):
     application does to the global generator in between."""
     ctx = w.ctx
     spec = dict(spec_of(w, op['m']))
-    spec['seed'] = {'kind': 'int', 'v': op['seed']}
+    sk = op.get('seed_kind', 'int')
+    # the same seed as an int, as two equal RandomState objects, or as ONE RandomState object
+    # handed to both models (the library reads a seed's state, it does not own the object)
+    spec['seed'] = {'kind': 'int', 'v': op['seed']} if sk == 'int' else (
+        {'kind': 'rs', 'v': op['seed']} if sk == 'equal_rs' else
+        {'kind': 'shared', 'ref': 'pair', 'v': op['seed']})
     data = zoo.gen_data(spec['data'])
     pair = []
+    shared = {}
     for _ in range(2):
         with sterile(spec['fit_state']):
-            m = zoo.build_model(spec, {})
+            m = zoo.build_model(spec, shared)
             out = outcome(zoo.fit_model, m, spec, data)
         pair.append((m, out))
+    caller_rs = shared.get('pair')
+    rs_before = None if caller_rs is None else caller_rs.get_state()
     if pair[0][1][0] != 'ok' or pair[1][1][0] != 'ok':
         return
     a, b = pair[0][0], pair[1][0]
@@ -783,9 +792,14 @@ def _pair_fresh(w, op):
                         'call %d: two separately built equal models with seed %d disagree'
                         % (call + 1, op['seed']), cls=w.meta[op['m']]['cls'], call=call + 1)
             break
+    if caller_rs is not None and not states_equal(rs_before, caller_rs.get_state()):
+        ctx.violate('I2_callers_randomstate_object_not_advanced', subject,
+                    'the RandomState object handed to two models as their seed was advanced '
+                    'by sampling from them', cls=w.meta[op['m']]['cls'])
     np.random.set_state(g0)
     ctx.stats['ops'] += 1
     ctx.stats['pair_fresh_checks'] += 1
+    ctx.probes['pair_fresh:' + sk] += 1
     ctx.nontrivial = True
     ctx.event('pair_fresh', op['m'], [outcome_class(o[0]) for o in outs])
     _abstract(w, op['m'], 'pair_fresh', outcome_class(outs[0][0]))
